@@ -748,6 +748,7 @@ package rockredis
 //@ property C08 C09
 //@ func (db *RockDB) GetCollVersionKey(ts int64, dt byte, key []byte, useLock bool) (collVerKeyInfo, error)
 //@   trusted reads the collection meta from the store
+//@   ensures result1 == nil ==> (result0.Expired <==> ghost(collexpired, db) == 1)
 //@   ensures result1 == nil ==> result0.OldHeader != nil && (result0.OldHeader.Ver == 0 || result0.OldHeader.Ver == 1) && smallTK(result0.Table, result0.VerKey)
 //@   ensures result1 == nil && (dt == SetType || dt == ZSetType) ==> (len(result0.OldHeader.UserData) == 0 || len(result0.OldHeader.UserData) >= 8) && setSize(result0.OldHeader.UserData) >= 0 && setSize(result0.OldHeader.UserData) < 4611686018427387904
 //@   ensures result1 == nil && dt == HashType ==> (len(result0.OldHeader.UserData) == 0 || len(result0.OldHeader.UserData) == 8) && storedSize(result0.OldHeader.UserData) >= 0 && storedSize(result0.OldHeader.UserData) < 4611686018427387904
@@ -794,6 +795,8 @@ package rockredis
 //@   ensures len(args) == 0 ==> result0 == 0 && result1 == nil && ghost(commits, db.rockEng) == old(ghost(commits, db.rockEng))
 //@   ensures len(args) > MAX_BATCH_NUM ==> result1 == errTooMuchBatchSize && ghost(commits, db.rockEng) == old(ghost(commits, db.rockEng))
 //@   ensures ghost(wbputs, db.wb) == 0 && ghost(wbdels, db.wb) == 0
+// an expired collection is dead (C10): removing from it finds nothing and writes nothing
+//@   ensures result1 == nil && ghost(collexpired, db) == 1 ==> result0 == 0 && ghost(commits, db.rockEng) == old(ghost(commits, db.rockEng))
 //@   modifies ghost(wbputs, _), ghost(wbdels, _), ghost(commits, _), ghost(cputs, _), ghost(cdels, _), ghost(misses, db), ghost(hits, db), ghost(sizedelta, db), ghost(newsize, db), ghost(tblcnt, db), ghost(expdels, _), alloftype(headerMetaValue), ghost(wbver, _), ghost(cver, _), ghost(sizeupds, db), ghost(readerrs, db), ghost(werrs, _)
 //@   loop 1
 //@   invariant 0 <= i && i <= len(args) && num == ghost(hits, db) - old(ghost(hits, db)) && num >= 0 && num <= i && ghost(wbdels, wb) == num && ghost(wbputs, wb) == 0
@@ -806,6 +809,8 @@ package rockredis
 //@   ensures len(args) == 0 ==> result0 == 0 && result1 == nil
 //@   ensures result1 == errTooMuchBatchSize || len(args) == 0 ==> ghost(wbputs, db.wb) == old(ghost(wbputs, db.wb)) && ghost(wbdels, db.wb) == old(ghost(wbdels, db.wb)) && ghost(commits, db.rockEng) == old(ghost(commits, db.rockEng))
 //@   ensures len(args) > MAX_BATCH_NUM ==> result1 == errTooMuchBatchSize
+// an expired collection is dead (C10): removing from it finds nothing and writes nothing
+//@   ensures result1 == nil && ghost(collexpired, db) == 1 ==> result0 == 0 && ghost(wbver, db.wb) == old(ghost(wbver, db.wb))
 //@   modifies ghost(wbputs, _), ghost(wbdels, _), ghost(commits, _), ghost(cputs, _), ghost(cdels, _), ghost(misses, db), ghost(hits, db), ghost(sizedelta, db), ghost(newsize, db), ghost(tblcnt, db), ghost(expdels, _), alloftype(headerMetaValue), ghost(wbver, _), ghost(cver, _), ghost(sizeupds, db), ghost(readerrs, db), ghost(werrs, _)
 //@   loop 1
 //@   invariant 0 <= i && i <= len(args) && num == ghost(hits, db) - old(ghost(hits, db)) && num >= 0 && num <= i
@@ -908,6 +913,8 @@ package rockredis
 //@   ensures len(members) == 0 ==> result0 == 0 && result1 == nil && ghost(commits, db.rockEng) == old(ghost(commits, db.rockEng))
 //@   ensures len(members) > MAX_BATCH_NUM ==> result1 == errTooMuchBatchSize && ghost(commits, db.rockEng) == old(ghost(commits, db.rockEng))
 //@   ensures ghost(wbputs, db.wb) == 0 && ghost(wbdels, db.wb) == 0
+// an expired collection is dead (C10): removing from it finds nothing and writes nothing
+//@   ensures result1 == nil && ghost(collexpired, db) == 1 ==> result0 == 0 && ghost(commits, db.rockEng) == old(ghost(commits, db.rockEng))
 //@   modifies ghost(wbputs, _), ghost(wbdels, _), ghost(wbver, _), ghost(commits, _), ghost(cputs, _), ghost(cdels, _), ghost(misses, db), ghost(hits, db), ghost(sizedelta, db), ghost(newsize, db), ghost(tblcnt, db), ghost(expdels, _), alloftype(headerMetaValue), ghost(cver, _), ghost(sizeupds, db), ghost(readerrs, db), ghost(werrs, _)
 //@   loop 1
 //@   invariant 0 <= i && i <= len(members) && num == ghost(hits, db) - old(ghost(hits, db)) && num >= 0 && num <= i && ghost(wbdels, wb) == 2 * num && ghost(wbputs, wb) == 0
